@@ -6,6 +6,7 @@ package vlib
 import (
 	"bufio"
 	"bytes"
+	"encoding"
 	"encoding/base64"
 	"encoding/json"
 	"fmt"
@@ -667,6 +668,12 @@ func roundTrip(c *Case, t reflect.Type, v reflect.Value, cost int, desc string, 
 		data, err = json.Marshal(v.Interface())
 	}()
 	if err != nil {
+		if strings.Contains(err.Error(), "unsupported type") && hasUnencodableMapKey(t, map[reflect.Type]bool{}) {
+			// encoding/json refuses maps keyed by bool or float types on the original type as well:
+			// no document exists, with or without wrappers
+			res.Counts["not-encodable-in-plain-go"]++
+			return nil
+		}
 		res.fail(prefix+"marshal", "Marshal fails", fmt.Sprintf("%s: json.Marshal(%s) fails: %v [%s]", t, trunc(fmt.Sprintf("%+v", v.Interface()), 200), err, desc), cost)
 		return nil
 	}
@@ -702,6 +709,37 @@ func roundTrip(c *Case, t reflect.Type, v reflect.Value, cost int, desc string, 
 		res.fail(prefix+"wire-format", "wire document differs: "+d, fmt.Sprintf("%s: on the wire %s, reference (encoding/json on the original struct, unions as Kind/Data) %s [%s]", t, trunc(g, 400), trunc(w, 400), desc), cost)
 	}
 	return data
+}
+
+// hasUnencodableMapKey reports whether t contains a map whose key encoding/json cannot write
+// (neither a string, an integer nor a TextMarshaler).
+func hasUnencodableMapKey(t reflect.Type, seen map[reflect.Type]bool) bool {
+	if seen[t] {
+		return false
+	}
+	seen[t] = true
+	switch t.Kind() {
+	case reflect.Map:
+		k := t.Key()
+		switch k.Kind() {
+		case reflect.String, reflect.Int, reflect.Int8, reflect.Int16, reflect.Int32, reflect.Int64,
+			reflect.Uint, reflect.Uint8, reflect.Uint16, reflect.Uint32, reflect.Uint64, reflect.Uintptr:
+		default:
+			if !k.Implements(reflect.TypeOf((*encoding.TextMarshaler)(nil)).Elem()) {
+				return true
+			}
+		}
+		return hasUnencodableMapKey(t.Elem(), seen)
+	case reflect.Slice, reflect.Array, reflect.Pointer:
+		return hasUnencodableMapKey(t.Elem(), seen)
+	case reflect.Struct:
+		for i := 0; i < t.NumField(); i++ {
+			if hasUnencodableMapKey(t.Field(i).Type, seen) {
+				return true
+			}
+		}
+	}
+	return false
 }
 
 // diffJSON names the first difference between two documents.
